@@ -986,7 +986,7 @@ fn main() {
     }
     total.states += sr_states as u64;
     let meta = Meta {
-        rule: "operation-sequence machine over iterators. A recipe = source (container titer on every back end / ring offset / stride / chunking, vdiff, vpct_change, vpartition, varg_partition, rolling_custom_iter, winsorize, range, linspace with full parameter bands) followed by 0..d adaptors (shift, vshift, ffill, bfill, fill, ffill_mask, fill_mask, vclip, abs, vabs; full bands at depth 1 and for the outer adaptor at depth 2, all 8^d pipelines of a reduced alphabet at depth 3..d). In every state (after k next(), and for double-ended sources after every next/next_back sequence up to len+2) size_hint().1 must equal the number of items still to come and the lower bound must not exceed it; adaptors preserve the input length; only then the raw trusted collectors are run and must return exactly the safely iterated list. Non-trivial = distinct input words.".into(),
+        rule: "operation-sequence machine over iterators. A recipe = source (container titer on every back end / ring offset / stride / chunking, vdiff, vpct_change, vpartition, varg_partition, rolling_custom_iter, winsorize, range, linspace with full parameter bands) followed by 0..d adaptors (shift, vshift, ffill, bfill, fill, ffill_mask, fill_mask, vclip, abs, vabs; full bands at depth 1 and for the outer adaptor at depth 2, all 8^d pipelines of a reduced alphabet at depth 3..d). In every state (after k next(), and for double-ended sources after every next/next_back sequence up to len+2) size_hint().1 must equal the number of items still to come and the lower bound must not exceed it; adaptors preserve the input length; only then the raw trusted collectors are run and must return exactly the safely iterated list. Non-trivial = distinct input words. Also vcut as a source (6 bin configurations; an error item counts as an item), the std scan adaptor, and TrustedLen::len() == items still to come in every state (DESIGN 5.15).".into(),
         bounds: json!({"alphabet": json_word(&alpha), "L": max_len, "max_depth": max_depth, "lags": "-len-3..=len+3, i32::MIN, i32::MAX", "kth": "0..=len+2", "window": "1..=len+2",
                        "deep_pipelines_on": "words of length >= 2 containing a null and a zero"}),
         assumptions: vec![
